@@ -49,38 +49,69 @@ def _sat(pre, timeout=60000):
 def part_obligations(R, L):
     v = L['vars']
     size, P, BUF, i, n = v['size'], v['P'], v['BUF'], v['i'], v['n']
-    N, start, tps = L['range_n'], L['create_part_start'], L['this_part_size']
+    N, start = L['range_n'], L['create_part_start']
 
     def at(t, **kw):
         return z3.substitute(t, *[(v[k], val) for k, val in kw.items()])
-    pre = [size >= 0, P >= 1, BUF >= 1, L['multi'], i >= 0, i < N]
-    lpre = pre + [n >= 1, n <= tps]
-    off, ln, nxt = L['read_offset'], L['read_length'], L['loop_next']
+    base = [size >= 0, P >= 1, BUF >= 1] + L['side_conditions']
+    pre = base + [L['multi'], i >= 0, i < N]
+    off, ln, nxt, guard, c0 = L['read_offset'], L['read_length'], L['loop_next'], L['loop_guard'], L['loop_init']
+    gnext = at(guard, n=nxt)
+
+    def loop_claims(T):
+        """The read loop of part i covers exactly [start_i, start_i + T): shape-agnostic induction over the loop state.
+        Inv(n) := guard(n) and start_i <= offset(n) < start_i + T."""
+        inv = [guard, off >= start, off < start + T]
+        init = z3.And(z3.Implies(T >= 1, at(guard, n=c0)), z3.Implies(at(guard, n=c0), at(off, n=c0) == start),
+                      z3.Implies(T <= 0, z3.Not(at(guard, n=c0))))
+        step = z3.And(ln >= 1, ln <= BUF, L['readexactly_n'] == ln, off + ln <= start + T,
+                      z3.Implies(gnext, z3.And(at(off, n=nxt) == off + ln, off + ln < start + T)),
+                      z3.Implies(z3.Not(gnext), off + ln == start + T))
+        return inv, init, step
+
+    # which of the sizes the code passes around is the extent the read loop really covers?
+    tps = None
+    for T in L['size_candidates']:
+        inv, init, step = loop_claims(T)
+        if _check(pre, init)[0] == 'unsat' and _check(pre + inv, step)[0] == 'unsat':
+            tps = T
+            break
+    loop_ok = tps is not None
+    if tps is None:
+        tps = L['size_candidates'][0]
+    inv, init, step = loop_claims(tps)
+    lpre = pre + inv
+    L['this_part_size'] = tps
     lv = L['local_vars']
     local_bind = [(lv['number'], L['create_part_number']), (lv['start'], start), (lv['num_parts'], L['create_num_parts'])]
+    inexact = [size % P != 0]
+    exact = [size % P == 0]
     obs = [
         ('parts: count N = ceil(size/P) >= 2 in the multi-part branch', pre, z3.And(N >= 2, (N - 1) * P < size, size <= N * P),
-         [L['rem'] != 0]),
-        ('parts: the count handed to multi_part_create equals the number of parts copied', pre, L['create_num_parts'] == N, []),
-        ('parts: part i is created with number i and start i*P', pre,
-         z3.And(L['part_number'] == i, L['create_part_number'] == i, start == i * P, L['part_size_arg'] == P), []),
+         inexact),
+        ('parts: every multi_part_create call is handed the number of parts that are copied', pre,
+         z3.And(*[t == N for t in L['create_num_parts_all']]), []),
+        ('parts: part i is created with number i', pre, L['create_part_number'] == i, []),
         ('parts: the first part starts at 0', pre, z3.Implies(i == 0, start == 0), [i == 0]),
-        ('parts: every part is non-empty and at most P long', pre, z3.And(tps >= 1, tps <= P), [L['rem'] != 0, i == N - 1]),
+        ('parts: every part is non-empty and at most P long (also when size is a multiple of P)', pre,
+         z3.And(tps >= 1, tps <= P), exact + [i == N - 1]),
         ('parts: part i+1 starts where part i ends', pre, z3.Implies(i + 1 < N, start + tps == at(start, i=i + 1)),
          [i + 1 < N]),
-        ('parts: the last part ends at size', pre, z3.Implies(i == N - 1, start + tps == size), [i == N - 1, L['rem'] != 0]),
-        ('read loop: the counter starts at the part size and the loop runs while it is positive', pre,
-         z3.And(L['loop_init'] == tps, L['loop_guard'] == (n > 0)), []),
-        ('read loop: each round reads 1..n bytes (<= BUFFER_SIZE), asks readexactly for the same count and decreases n', lpre,
-         z3.And(ln >= 1, ln <= n, ln <= BUF, L['readexactly_n'] == ln, nxt == n - ln, nxt >= 0, nxt < n), [BUF < n]),
-        ('read loop: the round with counter n reads at start_i + (size_i - n): first read at start_i, rounds contiguous',
-         lpre, z3.And(off == start + (tps - n), at(off, n=tps) == start, at(off, n=nxt) == off + ln), [nxt >= 1]),
-        ('read loop: the last round ends exactly at the end of the part', lpre,
-         z3.Implies(nxt == 0, off + ln == start + tps), [nxt == 0, n < tps]),
+        ('parts: the last part ends at size (size a multiple of P or not)', pre, z3.Implies(i == N - 1, start + tps == size),
+         [i == N - 1] + exact),
+        ('parts: the size hint given to create_part is the part size', pre,
+         (L['size_hint'] == tps) if L['size_hint'] is not None else z3.BoolVal(True), []),
+        ('read loop: starts reading at the start of the part and runs iff the part is non-empty', pre, init, []),
+        ('read loop: each round reads 1..BUFFER_SIZE bytes with readexactly(the same count), stays inside the part, the next '
+         'round continues where this one ended and the loop stops exactly at the end of the part', lpre, step, [BUF < tps]),
+        ('single-part branch: size <= P and the whole size is handed to _copy_file', base + [L['single_guard']],
+         z3.And(size <= P, *[t == size for t in L['single_copy_size']]), []),
+        ('branches: every size takes the single-part or the multi-part branch', base,
+         z3.Or(L['single_guard'], L['multi']), []),
         ('local part writer: 0 <= number < num_parts holds for every part', pre,
          z3.substitute(L['local_assert'], *local_bind), []),
-        ('local part writer: seeks to the offset the part was read from', pre,
-         z3.substitute(L['local_seek'], *local_bind) == i * P, []),
+        ('local part writer: seeks to the offset the part is read from', pre,
+         z3.substitute(L['local_seek'], *local_bind) == at(off, n=c0), []),
     ]
     for name, p, claim, twin in obs:
         r, m, dt, s = _check(p, claim)
@@ -112,10 +143,8 @@ def part_obligations(R, L):
             R.ob(name, st, dt, {'witness': vals}, nontrivial=True)
         else:
             R.ob(name, 'not_discharged', dt, {'solver': r})
-    if L['single_part_args'] != ['source_report', 'srcfile', 'size', 'destfile']:
-        raise HarnessError(f'single-part branch arguments changed: {L["single_part_args"]}')
-    R.ob('single-part branch (size <= P) copies the whole file with _copy_file(srcfile, size, destfile)', 'discharged', 0.0,
-         {'structural': L['src']['single']}, nontrivial=True)
+    if not L['single_copy_size']:
+        raise HarnessError('single-part branch no longer passes the size to _copy_file')
     dest_state_obligations(R, L)
     return pre
 
@@ -210,10 +239,11 @@ def validate_lift(R, L, pre):
     from harness import C22_parts as PP
     v = L['vars']
     size, P, BUF, i, n = v['size'], v['P'], v['BUF'], v['i'], v['n']
+    rem = size % P
     regions = {
-        'rem=0': [L['multi'], L['rem'] == 0], 'rem>0': [L['multi'], L['rem'] != 0],
+        'rem=0': [L['multi'], rem == 0], 'rem>0': [L['multi'], rem != 0],
         'BUF<P': [L['multi'], BUF < P], 'BUF>=P': [L['multi'], BUF >= P], 'single': [z3.Not(L['multi'])],
-        'rem=1': [L['multi'], L['rem'] == 1], 'rem=P-1': [L['multi'], L['rem'] == P - 1, P >= 3],
+        'rem=1': [L['multi'], rem == 1], 'rem=P-1': [L['multi'], rem == P - 1, P >= 3],
     }
     per = 3 if R.tier == 'quick' else 8
     for rname, cons in regions.items():
@@ -244,15 +274,22 @@ def validate_lift(R, L, pre):
                 N = ev(L['range_n'])
                 ok = rec['num_parts'] == ev(L['create_num_parts']) and len(rec['parts']) == N
                 for k in range(N):
-                    want = (ev(L['create_part_number'], i=k), ev(L['create_part_start'], i=k), ev(L['this_part_size'], i=k))
-                    ok = ok and want in rec['parts']
+                    want = (ev(L['create_part_number'], i=k), ev(L['create_part_start'], i=k))
+                    hint = ev(L['size_hint'], i=k) if L['size_hint'] is not None else None
+                    ok = ok and any(pp[:2] == want and (hint is None or pp[2] == hint) for pp in rec['parts'])
                     reads, cnt = [], ev(L['loop_init'], i=k)
                     while ev(L['loop_guard'], i=k, n=cnt):
                         reads.append((ev(L['read_offset'], i=k, n=cnt), ev(L['read_length'], i=k, n=cnt)))
                         cnt = ev(L['loop_next'], i=k, n=cnt)
                     ok = ok and rec['reads'].get(k, []) == reads
-            if not ok or not rec['identical']:
-                raise HarnessError(f'lifted terms disagree with the real coroutine at size={sz} P={p} BUF={b}: {rec}')
+            if not ok:
+                raise HarnessError(f'lifted terms disagree with the real coroutine at size={sz} P={p} BUF={b}: '
+                                   f'{str(rec)[:600]}')
+            if not rec['identical']:
+                if R.violations:
+                    continue      # the defect is already reported by an obligation above
+                raise HarnessError(f'all obligations discharged but the real copy is not identical at size={sz} P={p} '
+                                   f'BUF={b}: {str(rec)[:400]}')
             R.validation_points += 1
             # the same point onto pre-existing destinations: shorter, equal, longer than the source
             effs = L['open_multi_create'] if ev(L['multi']) else L['open_single']
